@@ -322,7 +322,9 @@ func offsetCase(o *out.W, r *rng.R, i int) {
 	} else {
 		pts = gen.StarContour(r, 0, 0, r.Range(6, 12), r.Range(3, 9))
 	}
-	if len(pts) < 3 {
+	if len(pts) < 3 || !gen.IsSimple(pts) {
+		// Offset is specified for closed contours: a star whose rounded vertices leave a spike (a 180 degree turn) or an edge
+		// through another vertex has no right-hand side there, and its orientation is undefined
 		return
 	}
 	// orientation by the shoelace formula; generated stars/rects are CCW, reverse half of them
